@@ -1689,6 +1689,8 @@ namespace hs
             }
             if (g_nh.mode == 0)
                 std::set_new_handler(nullptr); // has nothing to free: gives up by removing itself
+            else if (g_nh.mode == 2)
+                throw std::bad_alloc(); // the other standard way of giving up
             else
                 SimHeap::get().set_exhausted(false); // frees its reserve: the retry succeeds
         }
@@ -1702,7 +1704,7 @@ namespace hs
             return;
         auto& heap = SimHeap::get();
         g_nh       = NewHandlerCase();
-        g_nh.mode  = int(op.arg(1)) & 1;
+        g_nh.mode  = int(op.arg(1)) % 3;
         Req         r{int(op.arg(3)) % 2 ? MEMBER : TRAITS, false, 1, 8 + std::size_t(op.arg(2)) % 200, 8};
         std::size_t usable = 0;
         void*       p      = nullptr;
@@ -1728,7 +1730,9 @@ namespace hs
             S->o->deallocate(r, p);
         heap.end_op();
         hash_.add(0x9A + g_nh.mode * 2 + (threw ? 1 : 0));
-        stats().hit(g_nh.mode ? "reach.new_handler_freed_memory" : "reach.new_handler_removed_itself");
+        stats().hit(g_nh.mode == 1 ? "reach.new_handler_freed_memory" :
+                    g_nh.mode == 2 ? "reach.new_handler_threw_bad_alloc" :
+                                     "reach.new_handler_removed_itself");
         if (g_nh.stale)
             violate("C03", "new_handler_stale", "new_allocator called a std::new_handler %u times although it had "
                                                 "removed itself during its first call (std::get_new_handler() "
@@ -1742,6 +1746,10 @@ namespace hs
             violate("C03", "failure_absorbed", "no memory and no std::new_handler left: new_allocator %s instead of "
                                                "throwing out_of_memory",
                     threw ? "threw another exception" : "returned");
+        if (g_nh.mode == 2 && !threw)
+            violate("C03", "failure_absorbed", "no memory and a std::new_handler that gave up by throwing "
+                                               "std::bad_alloc: new_allocator returned %s instead of throwing",
+                    p ? "a pointer" : "null");
         if (g_nh.mode == 1 && (threw || !p))
             violate("C03", "spurious_failure", "the std::new_handler freed memory, the retry must succeed; "
                                                "new_allocator %s",
@@ -2082,6 +2090,22 @@ namespace hs
             return;
         auto& heap = SimHeap::get();
         Req   r{COMP, a.array, a.count, a.size, a.align};
+        // sometimes with a shape X could never have served (the answer is "not mine" all the same)
+        auto shape = (std::size_t(op.arg(0) < 0 ? -op.arg(0) : op.arg(0)) / 7) % 5;
+        if (shape == 1)
+        {
+            auto ma = X->o->max_align();
+            if (ma && ma < (std::size_t(1) << 20))
+                r.align = ma * 2;
+            stats().hit("reach.foreign_try_deallocate_overaligned");
+        }
+        else if (shape == 2 && !r.array)
+        {
+            auto mn = X->o->max_node();
+            if (mn < (std::size_t(1) << 30))
+                r.size = mn + 1;
+            stats().hit("reach.foreign_try_deallocate_oversized");
+        }
         std::vector<std::size_t> before, after;
         snapshot_caps(*X, before);
         auto cap0 = X->o->reading(0);
